@@ -142,7 +142,7 @@ func Gen(seed uint64, tier string) any {
 	case x < 75:
 		kinds := []string{"drop", "dup", "swap", "flip", "id", "rcode", "stall", "delay"}
 		if sc.Alg != "" {
-			kinds = append(kinds, "unsign", "wrongkey", "flip", "unsign", "wrongkey", "shortmac", "shortmac", "nokey")
+			kinds = append(kinds, "unsign", "wrongkey", "flip", "unsign", "wrongkey", "shortmac", "shortmac", "nokey", "parentkey")
 		}
 		nf := 1
 		if core.Chance(r, 20) {
@@ -155,6 +155,9 @@ func Gen(seed uint64, tier string) any {
 				continue
 			}
 			used[op.Env] = true
+			if op.Kind == "parentkey" {
+				op.Frac = r.IntN(2)
+			}
 			if op.Kind == "flip" {
 				op.Region = core.Pick(r, "header", "id", "counts", "question", "records", "records", "tsig", "mac")
 				op.Frac, op.Bit = r.IntN(1000), r.IntN(8)
@@ -675,7 +678,7 @@ func runIn(sc *Scenario, res *core.Result, verbose bool) {
 	if sc.CutAt > 0 {
 		cli.CutAfter(sc.CutAt, sc.CutRST)
 	}
-	x.relay = &common.Relay{K: k, ToClient: relayC, ToServer: relayS, Ops: sc.Ops, WrongSecret: secretBad, KeyName: keyName, Alg: sc.Alg}
+	x.relay = &common.Relay{K: k, ToClient: relayC, ToServer: relayS, Ops: sc.Ops, WrongSecret: secretBad, RightSecret: secretGood, KeyName: keyName, Alg: sc.Alg}
 	x.relay.Start()
 	start0 := time.Now()
 	k.Go("client", &clientTask{x})
